@@ -198,6 +198,8 @@ def ec_privkey_negate(secret, context=None):
     if len(secret) != 32:
         raise ValueError("Secret should be 32 bytes long")
     s = int.from_bytes(secret, "big")
+    if s == 0 or s >= _key.SECP256K1_ORDER:
+        raise ValueError("Failed to negate the secret")
     s2 = _key.SECP256K1_ORDER - s
     return s2.to_bytes(32, "big")
 
